@@ -879,11 +879,11 @@ pub fn run(ctx: &mut Ctx) {
     ];
     preamble(ctx);
     let t = ctx.tier;
-    ctx.run_part::<IntOps>(t.pick(200_000, 4_000_000));
-    ctx.run_part::<DyadicOps>(t.pick(200_000, 4_000_000));
-    ctx.run_part::<IntFloatAgree>(t.pick(50_000, 1_000_000));
-    ctx.run_part::<GeneralFloats>(t.pick(100_000, 2_000_000));
-    ctx.run_part::<IntFloatCmp>(t.pick(100_000, 2_000_000));
+    ctx.run_part::<IntOps>(t.pick(200_000, 20_000_000));
+    ctx.run_part::<DyadicOps>(t.pick(200_000, 16_000_000));
+    ctx.run_part::<IntFloatAgree>(t.pick(50_000, 4_000_000));
+    ctx.run_part::<GeneralFloats>(t.pick(100_000, 8_000_000));
+    ctx.run_part::<IntFloatCmp>(t.pick(100_000, 8_000_000));
     if t == Tier::Thorough {
         python_crosscheck(ctx);
     }
